@@ -186,7 +186,7 @@ InitObs ==
     dropped |-> FALSE,    \* writer dropped (clean finish requested)
     wfailed |-> FALSE,    \* some write/flush returned an error
     calive |-> TRUE,      \* body (consumer half) not yet dropped
-    unflushed |-> 0,      \* accepted bytes not yet flushed (mod chunk size)
+    lastBuf |-> 0,        \* bytes in the writer's private buffer after the last completed operation
     flushed |-> 0,        \* bytes known to have been published
     park |-> 0, woken |-> {},
     eosSaid |-> FALSE,
@@ -207,7 +207,8 @@ DoneFailures(os, done, i, e) ==
       live == ~os.aborted /\ ~os.dropped /\ ~os.wfailed /\ os.calive
       acc2 == IF isW /\ d.res = "ok" THEN os.acc + d.k ELSE os.acc
       last == i = Len(done)
-      completes == ~e.gz /\ os.unflushed + d.k >= e.cap
+      \* the private buffer did not simply grow by k: the write tried to publish a chunk
+      completes == ~e.gz /\ os.lastBuf >= 0 /\ d.buf # os.lastBuf + d.k
       bad ==
         {id \in Enforce :
            \* C08: a write of a non-empty buffer to a live body accepts at least one byte
@@ -219,16 +220,14 @@ DoneFailures(os, done, i, e) ==
            \* C11: after abort, and after a first error, every later write/flush fails
            \/ id = "C11" /\ (os.aborted \/ os.wfailed) /\ (isW \/ isF) /\ d.res # "err"
            \* C11: once the body is gone, flush of unflushed bytes and chunk-completing writes fail
-           \/ id = "C11" /\ d.sdrop /\ isF /\ d.res = "ok" /\ (e.gz \/ os.unflushed > 0)
+           \/ id = "C11" /\ d.sdrop /\ isF /\ d.res = "ok" /\ (e.gz \/ os.lastBuf > 0)
            \/ id = "C11" /\ d.sdrop /\ isW /\ d.res = "ok" /\ completes
         }
-      unfl2 == IF isW /\ d.res = "ok" THEN (os.unflushed + d.k) % e.cap
-               ELSE IF isF /\ d.res = "ok" THEN 0 ELSE os.unflushed
       os2 == [os EXCEPT !.acc = acc2,
                         !.aborted = os.aborted \/ (d.op = "abort" /\ ~os.dropped /\ ~os.wfailed /\ ~os.aborted),
                         !.dropped = os.dropped \/ d.op = "drop",
                         !.wfailed = os.wfailed \/ ((isW \/ isF) /\ d.res = "err"),
-                        !.unflushed = unfl2]
+                        !.lastBuf = d.buf]
       rest == DoneFailures(os2, done, i + 1, e)
   IN [os |-> rest.os, bad |-> bad \cup rest.bad]
 
